@@ -1,75 +1,102 @@
-/* dr_common.h - typed wrapper for sqfs_data_reader_t (flexible array member
- * `scratch[]`), DESIGN 2.4: never malloc(sizeof + symbolic). The block size is
- * the compile-time parameter BS of the harness; the driver runs one case per
- * legal block size. Includes rd_env.h (define ENV_PROP and hooks first), the real data_reader.c
- * and the real alloc helpers (loop free, overflow checked).
+/* dr_common.h - sqfs_data_reader_t for the harnesses.
+ *
+ * The real object is allocated as alloc_flex(sizeof(*rd), 1, block_size): the
+ * structure followed by block_size bytes reached through the flexible array
+ * member `scratch[]`. DESIGN 2.4: never malloc(sizeof + n) under CBMC (the
+ * object becomes an untyped byte array). The typed-wrapper alternative
+ * struct { rd; u8 scratch[BS]; } works up to 128 KiB but costs 8 SAT variables
+ * per scratch byte per SSA version (31 M variables at 128 KiB, over the
+ * memory cap at 1 MiB), and CBMC's array theory rejects the nested zero-length
+ * member. So here the structure and its trailing block_size bytes are two
+ * objects: `rd` (exactly sizeof(sqfs_data_reader_t)) and a block_size heap
+ * buffer; the environment stubs translate the pointer rd->scratch - asserted
+ * to be exactly the start of the flexible array member, the only form
+ * data_reader.c uses - to that buffer BEFORE checking their preconditions, so
+ * "at most block_size bytes go through scratch" is still what is proved.
+ * Natively (replay) the reader is allocated exactly as the library does.
+ *
+ * The block size is the compile-time parameter BS; the driver runs one case
+ * per legal block size. Define ENV_PROP and hooks, then include this file: it
+ * includes rd_env.h, the real data_reader.c and the real alloc helpers.
  */
 #ifndef DR_COMMON_H
 #define DR_COMMON_H
 
+/* BS: block size. -DBS=<n> fixes it (replay, experiments); by default it is
+ * SYMBOLIC: any value wf_super allows (power of two, 4 KiB .. 1 MiB). All
+ * payload buffers are then objects of symbolic size, which CBMC's array
+ * theory handles without allocating a variable per byte. */
 #ifndef BS
-#error "define BS (block size)"
+static unsigned int g_bs;
+#define BS g_bs
+#define BS_SYMBOLIC 1
 #endif
 
-/* rd->scratch is a flexible array member inside the wrapper: give the stubs
- * the wrapper's own array instead (same address, typed, indexable) */
 #ifndef VERIF_REPLAY
-struct dr_wrap;
-static struct dr_wrap *g_w;
+static unsigned char *g_scratch;	/* the block_size bytes behind rd */
+static void *g_rd_obj;			/* the reader object */
 static unsigned char *dr_rebase(const void *p);
-#define ENV_REBASE(p) (VERIF_SAME_OBJECT((p), g_w) ? dr_rebase(p) : (unsigned char *)(p))
+#define ENV_REBASE(p) (VERIF_SAME_OBJECT((p), g_rd_obj) ? dr_rebase(p) : (unsigned char *)(p))
 #endif
 #include "C10/rd_env.h"
 
 #include "lib/util/src/alloc.c"
 #include "lib/sqfs/src/data_reader.c"
 
-/* Instances must come from calloc(1, sizeof(dr_wrap_t)): a malloc'ed or
- * automatic wrapper starts with nondeterministic contents, and the nondet
- * initialiser of the zero-length member rd.scratch is an array expression
- * CBMC's array theory (--arrays-uf-always, needed for 128 KiB..1 MiB buffers)
- * rejects; a static one loses the member path of &w->scratch in symex. The
- * scratch area is a pure transit buffer; its initial contents are never
- * observed. */
-typedef struct dr_wrap {
-	sqfs_data_reader_t rd;
-	sqfs_u8 scratch[BS];
-} dr_wrap_t;
-
 #ifndef VERIF_REPLAY
-_Static_assert(offsetof(dr_wrap_t, scratch) ==
-	       offsetof(dr_wrap_t, rd) + offsetof(sqfs_data_reader_t, scratch),
-	       "wrapper payload must coincide with the flexible array member");
-
 static unsigned char *dr_rebase(const void *p)
 {
-	/* data_reader.c only ever passes the start of the scratch area */
-	VERIF_ASSERT((const sqfs_u8 *)p == g_w->rd.scratch,
+	VERIF_ASSERT((const sqfs_u8 *)p ==
+		     ((sqfs_data_reader_t *)g_rd_obj)->scratch,
 		     ENV_NAME("scratch_pointer_exact"));
-	return g_w->scratch;
+	return g_scratch;
 }
-#else
-static dr_wrap_t *g_w;
 #endif
 
-/* the frag table is only reached through sqfs_frag_table_* (stubbed or real,
- * harness decides); a dummy object stands for it where it is not used */
-static void dr_base_init(dr_wrap_t *w, sqfs_frag_table_t *ft)
+static sqfs_data_reader_t *dr_new(sqfs_frag_table_t *ft)
 {
-	g_w = w;
-	w->rd.obj.refcount = 1;
-	w->rd.obj.destroy = data_reader_destroy;
-	w->rd.obj.copy = data_reader_copy;
-	w->rd.frag_tbl = ft;
-	w->rd.cmp = &g_cmp;
-	w->rd.file = &g_file;
-	w->rd.block_size = BS;
-	w->rd.data_block = NULL;
-	w->rd.data_blk_size = 0;
-	w->rd.current_block = 0;
-	w->rd.frag_block = NULL;
-	w->rd.frag_blk_size = 0;
-	w->rd.current_frag_index = 0;
+	sqfs_data_reader_t *rd;
+
+#ifdef BS_SYMBOLIC
+	g_bs = verif_nd_u32("block_size");
+	VERIF_ASSUME(g_bs >= SQFS_MIN_BLOCK_SIZE && g_bs <= SQFS_MAX_BLOCK_SIZE);
+	VERIF_ASSUME((g_bs & (g_bs - 1)) == 0);
+#endif
+
+#ifdef VERIF_REPLAY
+	rd = calloc(1, sizeof(*rd) + BS);
+	VERIF_ASSUME(rd != NULL);
+#else
+	rd = malloc(sizeof(*rd));
+	VERIF_ASSUME(rd != NULL);
+	g_scratch = malloc(BS);
+	VERIF_ASSUME(g_scratch != NULL);
+	g_rd_obj = rd;
+#endif
+	rd->obj.refcount = 1;
+	rd->obj.destroy = data_reader_destroy;
+	rd->obj.copy = data_reader_copy;
+	rd->frag_tbl = ft;
+	rd->cmp = &g_cmp;
+	rd->file = &g_file;
+	rd->block_size = BS;
+	rd->data_block = NULL;
+	rd->data_blk_size = 0;
+	rd->current_block = 0;
+	rd->frag_block = NULL;
+	rd->frag_blk_size = 0;
+	rd->current_frag_index = 0;
+	return rd;
+}
+
+static void dr_delete(sqfs_data_reader_t *rd)
+{
+	free(rd->data_block);
+	free(rd->frag_block);
+#ifndef VERIF_REPLAY
+	free(g_scratch);
+#endif
+	free(rd);
 }
 
 #endif
